@@ -14,7 +14,11 @@ Sub-checks
   compact         triangular_compact, rectangular_compact, sun_compact (n >= 3)
   graph_embed     graph_embed / bipartite_graph_embed: c A == U diag(tanh(-r)) V^T with c > 0, sum sinh^2 r == n * mean photon
   invalid         valid matrix + perturbation at 0.01x .. 1e4x the routine's own tolerance in the routine's own norm, and
-                  non-square / odd-sized / not positive definite / too small inputs
+                  non-square / odd-sized / not (or only just not) positive definite / too small / nan- or inf-containing inputs
+
+Every sub-check keeps a copy of the argument and demands that the routine leaves the caller's array alone (`*.modifies_input`).
+Documented options are varied on valid inputs too: `rounding` (takagi, bloch_messiah), `rtol` / `atol` of the graph embeddings
+(defaults and the values the only callers in ops.py pass), integer-dtype arrays where the matrix is integer valued.
 
 Failure signatures name the root cause.  For the weak spots found so far the oracle re-derives the trigger independently of
 the routine's output (so that any OTHER failure of the same routine keeps a generic signature and is a VIOLATION):
@@ -38,7 +42,10 @@ RULE = ("Hypothesis-generated matrices of size 1..6 (quick) / 1..8 (thorough) bu
         "products of few beamsplitters with exact zeros, DFT, near-identity), spectra with explicitly drawn multiplicities "
         "(repeated values, several zeros, gaps 1e-14..1e-6) and already-canonical forms; a case is non-trivial when the "
         "matrix has size >= 2 and is not the identity; distinct = distinct JSON. Invalid inputs are a valid matrix plus a "
-        "perturbation measured in the routine's own norm against the routine's own tolerance.")
+        "perturbation measured in the routine's own norm against the routine's own tolerance, or with one nan / inf entry, or with "
+        "eigenvalues flipped to -1 .. -1e-9 x their value. Also drawn: the `rounding` argument (takagi 13/10/8/6, bloch_messiah "
+        "9/8/7/6), the symmetry tolerances of the graph embeddings (defaults, rtol=0 atol=1e-6 as ops.py passes, two more), integer "
+        "dtype (adjacency matrices, permutations, integer CX/CZ/P-gate symplectic matrices), takagi inputs scaled by 1e-3 / 1e-5.")
 ASSUMPTIONS = [
     "numpy/scipy LAPACK (svd, eigvals, det) are trusted for the independent spectra used as oracle",
     "reconstruction / structure tolerance 1e-8 * (1 + max|input|) (unchanged tree: <= 2e-12 on well separated spectra; "
@@ -59,11 +66,26 @@ ASSUMPTIONS = [
     "code comments, relied upon by graph_embed_deprecated and bloch_messiah)",
     "root-cause classifiers may call numpy's svd exactly as the routine does and thewalrus.adj_scaling (third-party) to see the "
     "same floating-point singular values; they only choose the signature of a failure, never whether a case fails",
+    "a routine must not write into the array it is given (np.array_equal with a copy taken before the call): the factors have to "
+    "multiply back to the matrix that was passed, and ops.Interferometer / GaussianTransform / GraphEmbed keep that array as the "
+    "operation's parameter and decompose it again on every compilation",
+    "`rounding` = r decimals (documented: singular values equal after np.round(., r) are treated as equal, rl are the rounded values): "
+    "everything that involves the returned singular values is demanded to 1e-8 + 5 * 10^-r only (unchanged tree: <= 0.5 * 10^-r for "
+    "takagi, <= 0.2 * 10^-r for bloch_messiah); unitarity / orthogonality / symplecticity stay at 1e-8. r <= 13 (takagi) / <= 9 "
+    "(bloch_messiah): finer rounding than the default only multiplies the known findings N1 / N3",
+    "bipartite_graph_embed: when the scaled matrix c A (c = least-squares fit of the output) is symmetric within the (rtol, atol) in "
+    "force (elementwise, 5% margin) it may be embedded as a symmetric matrix: bound loosened by 100 x c |A - A^T| (the `invalid` "
+    "sub-check's rule), mean photon number by 10 x the first-order effect of that shift on sum sinh^2 r. Open finding N10 is only "
+    "attributed when the scaled asymmetry passes the elementwise test and has a Frobenius norm >= 0.9 atol (scale from "
+    "thewalrus.adj_scaling); any other refusal of a square matrix is a violation",
+    "nan / inf inputs (mode nonfinite) must raise; only routines whose own acceptance test is what stops them are probed (see "
+    "NONFINITE_ROUTINES: bloch_messiah, takagi excluded as AUDIT-FINDING nonfinite-accepted)",
 ]
 REQUIRED_LABELS = {"all": ["takagi", "williamson", "bloch_messiah", "rectangular", "rectangular_phase_end", "rectangular_MZ",
                            "rectangular_symmetric", "triangular", "triangular_compact", "rectangular_compact", "sun_compact",
                            "graph_embed", "bipartite_graph_embed", "exact_zero_pivot", "permutation", "degenerate",
-                           "already_canonical", "near_tolerance", "invalid"]}
+                           "already_canonical", "near_tolerance", "invalid", "rounding_arg", "small_entries", "int_dtype",
+                           "symmetry_tolerance_arg", "mode:nonfinite"]}
 
 TOL = 1e-8
 PI = float(np.pi)
@@ -196,6 +218,26 @@ def _nontrivial(M):
     return M.shape[0] >= 2 and not _is_identity(M)
 
 
+def _touched(M, M0):
+    """True iff the routine wrote into the caller's array (M0 = copy taken before the call): the factors must multiply back to
+    the matrix that was passed in, and every caller (ops.Interferometer, GaussianTransform, GraphEmbed keep the matrix as the
+    operation's parameter and may decompose it again) relies on the argument surviving the call"""
+    return M.shape != M0.shape or M.dtype != M0.dtype or not np.array_equal(M, M0, equal_nan=True)
+
+
+def _as_int(M):
+    """integer-dtype copy of a matrix whose entries are integers (adjacency matrices, permutations, CX / CZ symplectic matrices)"""
+    M = np.asarray(M)
+    R = np.rint(M.real).astype(np.int64)
+    assert np.array_equal(R, M), "not an integer matrix"
+    return R
+
+
+def _rq(rounding, default):
+    """resolution of the `rounding` argument (number of decimals; None = the routine's default)"""
+    return 10.0 ** (-(default if rounding is None else int(rounding)))
+
+
 # ---------------------------------------------------------------------------------------------
 # strategies
 # ---------------------------------------------------------------------------------------------
@@ -246,6 +288,8 @@ def _u_labels(kind, U):
         labs.append("permutation")
     if np.isrealobj(U):
         labs.append("real_dtype")
+    if U.dtype.kind == "i":
+        labs.append("int_dtype")
     if kind in ("identity", "diag"):
         labs.append("already_canonical")
     if U.shape[0] >= 2 and bool(np.any(U == 0)):
@@ -317,7 +361,17 @@ def takagi_case(draw, nmax):
         sv = [s, s] + [s / 3] * (n - 2)
         A = W @ np.diag(sv) @ W.T
     A = (A + A.T) / 2
-    return {"n": n, "kind": kind, "A": spec.enc_matrix(A)}
+    case = {"n": n, "kind": kind}
+    if kind not in ("near_degenerate", "round_boundary", "noisy_diagonal", "zero") and draw(st.integers(0, 7)) == 0:
+        # small entries, still well above takagi's `allclose(N, 0)` shortcut (atol 1e-8): max|A_ij| >= sigma_max / n >= 8e-8
+        case["scale"] = draw(st.sampled_from([1e-3, 1e-5]))
+        A = A * case["scale"]
+    if kind == "adjacency" and "scale" not in case and draw(st.booleans()):
+        case["dtype"] = "int"  # 0/1 adjacency matrix as an integer array
+    # the documented `rounding` argument: singular values equal after np.round(., rounding) are treated as one subspace
+    case["rounding"] = draw(st.sampled_from([None, None, None, None, 13, 10, 8, 6]))
+    case["A"] = spec.enc_matrix(A)
+    return case
 
 
 def _split_cluster(l, decimals, window):
@@ -328,7 +382,7 @@ def _split_cluster(l, decimals, window):
     return any(l[i] - l[i + 1] < window and r[i] != r[i + 1] for i in range(len(l) - 1))
 
 
-def _takagi_rootcause(A):
+def _takagi_rootcause(A, rounding=13):
     """which known weak spot of takagi's degenerate-subspace handling (group singular values by np.round(., 13), take
     sqrtm(v_g^T w_g) per group) the input falls into: (signature, text) or None.  Uses the routine's own svd call so that
     the floating-point singular values are the ones the routine sees."""
@@ -336,12 +390,12 @@ def _takagi_rootcause(A):
     if np.isrealobj(Ac):
         return None
     v, l, ws = np.linalg.svd(Ac)
-    if _split_cluster(l, 13, 1e-6):
+    if _split_cluster(l, rounding, 1e-6):
         return ("takagi.near_degenerate_cluster_split_by_rounding",
-                "singular values %s contain a pair closer than 1e-6 that np.round(., 13) tells apart: the (nearly) degenerate "
-                "subspace is treated as non-degenerate" % l.tolist())
+                "singular values %s contain a pair closer than 1e-6 that np.round(., %d) tells apart: the (nearly) degenerate "
+                "subspace is treated as non-degenerate" % (l.tolist(), rounding))
     w = ws.conj().T
-    rl = np.round(l, 13)
+    rl = np.round(l, rounding)
     start = 0
     for i in range(1, len(rl) + 1):
         if i == len(rl) or rl[i] != rl[start]:
@@ -359,10 +413,22 @@ def _takagi_rootcause(A):
 def check_takagi(ctx, case):
     dec = _dec()
     A = spec.dec_param(case["A"])
+    if case.get("dtype") == "int":
+        A = _as_int(A)
+    A0 = A.copy()
     n = A.shape[0]
+    rounding = case.get("rounding")
+    kw = {} if rounding is None else {"rounding": int(rounding)}
+    rq = _rq(rounding, 13)
     sv = np.linalg.svd(A, compute_uv=False)
-    rsv = np.round(sv, 9)
+    rsv = np.round(sv / case.get("scale", 1.0), 9)
     labels = ["takagi", "kind:" + case["kind"], "real_input" if np.isrealobj(A) else "complex_input"]
+    if rounding is not None:
+        labels.append("rounding_arg")
+    if case.get("scale", 1.0) != 1.0:
+        labels.append("small_entries")
+    if case.get("dtype") == "int":
+        labels.append("int_dtype")
     if len(set(rsv.tolist())) < n:
         labels.append("degenerate")
     if n >= 2 and np.any(sv < 1e-12):
@@ -373,15 +439,17 @@ def check_takagi(ctx, case):
         labels.append("near_degenerate")
     ctx.note(case, nontrivial=_nontrivial(A), labels=labels)
     try:
-        rl, W = dec.takagi(A)
+        rl, W = dec.takagi(A, **kw)
     except ValueError as exc:
         return ctx.fail("takagi.rejects_valid", "valid symmetric matrix rejected: %s" % exc)
     except Exception as exc:  # pylint: disable=broad-except
         return ctx.crash(exc, "takagi")
+    if _touched(A, A0):
+        return ctx.fail("takagi.modifies_input", "the argument was changed in place by up to %.3g" % _maxabs(A - A0))
     rl, W = np.asarray(rl), np.asarray(W)
     if rl.shape != (n,) or W.shape != (n, n) or not np.all(np.isfinite(rl)) or not np.all(np.isfinite(W)):
         return ctx.fail("takagi.shape_or_nan", "rl %s W %s finite=%s" % (rl.shape, W.shape, np.all(np.isfinite(W))))
-    tol = TOL * (1 + _maxabs(A))
+    tol = TOL * (1 + _maxabs(A)) + 5 * rq  # rl are the singular values ROUNDED to `rounding` decimals (docstring)
     e_rec = _maxabs(W @ np.diag(rl) @ W.T - A)
     e_uni = _unit_err(W)
     e_sv = _maxabs(np.sort(np.abs(rl))[::-1] - sv)
@@ -391,10 +459,10 @@ def check_takagi(ctx, case):
     if e_uni > TOL:
         bad.append("W not unitary by %.3g" % e_uni)
     if bad:
-        rc = _takagi_rootcause(A)
+        rc = _takagi_rootcause(A, 13 if rounding is None else int(rounding))
         if rc:
             return ctx.fail(rc[0], "%s; %s" % ("; ".join(bad), rc[1]))
-        return ctx.fail("takagi.wrong_factors", "; ".join(bad))
+        return ctx.fail("takagi.wrong_factors", "; ".join(bad) + ("" if rounding is None else " (rounding=%d)" % rounding))
     if np.iscomplexobj(rl) or np.any(rl < 0):
         return ctx.fail("takagi.negative_singular_value", "rl = %s" % rl.tolist())
     if np.any(np.diff(rl) > 1e-12):
@@ -436,6 +504,7 @@ def _sympl_spectrum(V):
 def check_williamson(ctx, case):
     dec = _dec()
     V = spec.dec_param(case["V"])
+    V0 = V.copy()
     n = V.shape[0] // 2
     nu, _ = _sympl_spectrum(V)
     labels = ["williamson", "kind:" + case["kind"]]
@@ -455,7 +524,9 @@ def check_williamson(ctx, case):
         return ctx.fail("williamson.rejects_valid", "valid positive definite matrix rejected: %s" % exc)
     except Exception as exc:  # pylint: disable=broad-except
         return ctx.crash(exc, "williamson")
-    return _williamson_verdict(ctx, V, Db, S, nu, TOL * (1 + _maxabs(V)), TOL)
+    if _touched(V, V0):
+        return ctx.fail("williamson.modifies_input", "the argument was changed in place by up to %.3g" % _maxabs(V - V0))
+    return _williamson_verdict(ctx, V0, Db, S, nu, TOL * (1 + _maxabs(V0)), TOL)
 
 
 def _williamson_verdict(ctx, V, Db, S, nu, tol, tol_s):
@@ -489,9 +560,51 @@ def _williamson_verdict(ctx, V, Db, S, nu, tol, tol_s):
 # ---------------------------------------------------------------------------------------------
 # bloch_messiah
 # ---------------------------------------------------------------------------------------------
+BM_ROUNDINGS = [None, None, None, None, None, 9, 8, 7, 6]
+
+
+@st.composite
+def int_shear(draw, n):
+    """integer symplectic matrices as products of CX / CZ / P gates with integer parameters give them:
+    S = [[A, 0], [D K, D]], A unimodular integer (row operations), D = A^-T, K symmetric integer.  Exact entries, exact zeros,
+    singular values in exactly reciprocal pairs, untouched modes with singular value exactly 1"""
+    A = np.eye(n, dtype=np.int64)
+    D = np.eye(n, dtype=np.int64)
+    if n >= 2:
+        for _ in range(draw(st.integers(0, 3))):
+            i, j = draw(st.permutations(list(range(n))))[:2]
+            k = draw(st.sampled_from([1, -1, 2, -2]))
+            A[i] += k * A[j]  # x_i += k x_j  (CXgate)
+            D[j] -= k * D[i]  # p_j -= k p_i
+    K = np.zeros((n, n), dtype=np.int64)
+    for _ in range(draw(st.integers(0 if n >= 2 else 1, 3))):
+        i, j = draw(st.integers(0, n - 1)), draw(st.integers(0, n - 1))
+        k = draw(st.sampled_from([1, -1, 2]))
+        K[i, j] += k  # CZgate (i != j) / Pgate (i == j)
+        if i != j:
+            K[j, i] += k
+    return np.block([[A, np.zeros((n, n), dtype=np.int64)], [D @ K, D]])
+
+
 @st.composite
 def bm_case(draw, nmax):
+    case = draw(_bm_case(nmax))
+    # documented argument: decimals that tell singular values apart; coarser than the default more often where it changes the grouping
+    if case["kind"] in ("near_degenerate", "tiny_r"):
+        case["rounding"] = draw(st.sampled_from([None, None, 9, 8, 7, 7, 6, 6]))
+    elif case["kind"] != "shear_int" or draw(st.booleans()):
+        case["rounding"] = draw(st.sampled_from(BM_ROUNDINGS))
+    return case
+
+
+@st.composite
+def _bm_case(draw, nmax):
     n = draw(st.integers(1, nmax))
+    if draw(st.integers(0, 11)) == 0:
+        S = draw(int_shear(n))
+        sv = np.linalg.svd(S.astype(float), compute_uv=False)
+        r = [0.0 if abs(x) < 1e-12 else float(x) for x in np.log(np.sort(sv)[::-1][:n])]
+        return {"n": n, "kind": "shear_int", "r": r, "S": spec.enc_matrix(S), "dtype": draw(st.sampled_from(["int", "float"]))}
     if draw(st.integers(0, 9)) == 0:
         # weak squeezers directly on the inputs, then an interferometer: S^T S is diagonal and within 1e-5 of the identity, S is NOT passive
         r = np.array([draw(st.sampled_from([1e-6, 4e-6, 2e-6, 1e-7, 1e-5, 8e-6])) for _ in range(n)])
@@ -523,11 +636,20 @@ def bm_case(draw, nmax):
 def check_bm(ctx, case):
     dec = _dec()
     S = spec.dec_param(case["S"])
+    if case.get("dtype") == "int":
+        S = _as_int(S)
+    S0 = S.copy()
     n = S.shape[0] // 2
+    rounding = case.get("rounding")
+    kw = {} if rounding is None else {"rounding": int(rounding)}
     sv = np.linalg.svd(S, compute_uv=False)
     r = np.abs(np.array(case["r"]))
     passive = case["kind"] == "passive" or bool(np.all(r == 0))
     labels = ["bloch_messiah", "kind:" + case["kind"], "passive" if passive else "active"]
+    if rounding is not None:
+        labels.append("rounding_arg")
+    if case.get("dtype") == "int":
+        labels.append("int_dtype")
     nz = int(np.sum(r == 0))
     if not passive and nz >= 1:
         labels.append("mixed_zero_squeezing")
@@ -541,15 +663,22 @@ def check_bm(ctx, case):
         labels.append("near_degenerate")
     ctx.note(case, nontrivial=_nontrivial(S), labels=labels)
     try:
-        O1, Z, O2 = dec.bloch_messiah(S)
+        O1, Z, O2 = dec.bloch_messiah(S, **kw)
     except ValueError as exc:
         return ctx.fail("bloch_messiah.rejects_valid", "valid symplectic matrix rejected: %s" % exc)
     except Exception as exc:  # pylint: disable=broad-except
         return ctx.crash(exc, "bloch_messiah")
-    return _bm_verdict(ctx, S, O1, Z, O2, sv, TOL, passive_exact=passive and np.linalg.norm(S.T @ S - np.eye(2 * n)) < 1e-11)
+    if _touched(S, S0):
+        return ctx.fail("bloch_messiah.modifies_input", "the argument was changed in place by up to %.3g" % _maxabs(S - S0))
+    return _bm_verdict(ctx, S0, O1, Z, O2, sv, TOL, passive_exact=passive and np.linalg.norm(S0.T @ S0 - np.eye(2 * n)) < 1e-11,
+                       rounding=9 if rounding is None else int(rounding))
 
 
-def _bm_verdict(ctx, S, O1, Z, O2, sv, tol, passive_exact=False):
+def _bm_verdict(ctx, S, O1, Z, O2, sv, tol, passive_exact=False, rounding=9):
+    """`rounding`: singular values that agree to that many decimals are treated as equal by the routine (documented), so Z is
+    diagonal / paired / equal to the singular values, and the product exact, only to a few 10^-rounding (the default 9 is below
+    the tolerance 1e-8)"""
+    rq = 0.0 if rounding >= 9 else 5 * 10.0 ** (-rounding)
     n = S.shape[0] // 2
     O1, Z, O2 = np.asarray(O1), np.asarray(Z), np.asarray(O2)
     for nm, M in (("O1", O1), ("Z", Z), ("O2", O2)):
@@ -562,8 +691,9 @@ def _bm_verdict(ctx, S, O1, Z, O2, sv, tol, passive_exact=False):
     e_s = max(_sympl_err(O1), _sympl_err(O2))
     e_d = _maxabs(Z - np.diag(z))
     top = np.sort(sv)[::-1][:n]
-    neardeg = _split_cluster(top, 9, 1e-5) or _split_cluster(np.concatenate([top, [1.0]]), 9, 1e-5)
-    if e_rec <= tol * sc and e_o <= tol and e_d <= tol * sc and e_s > tol and not neardeg:
+    neardeg = _split_cluster(top, rounding, 1e-5) or _split_cluster(np.concatenate([top, [1.0]]), rounding, 1e-5)
+    tol_z = tol * sc + rq  # everything that involves Z
+    if e_rec <= tol_z and e_o <= tol and e_d <= tol_z and e_s > tol and not neardeg:
         # bug-compatible prediction of F38: everything right except symplecticity of the orthogonal factors, and the
         # singular value 1 (after the routine's rounding to 9 decimals) has multiplicity >= 4 while S is not passive
         unit = int(np.sum(np.abs(sv - 1) <= 5.5e-10))
@@ -571,25 +701,25 @@ def _bm_verdict(ctx, S, O1, Z, O2, sv, tol, passive_exact=False):
             return ctx.fail("F38.bloch_messiah.nonsymplectic_factors.unit_singular_value_multiplicity_ge_4",
                             "O1/O2 orthogonal (%.2g), O1 Z O2 == S (%.2g) but |O Omega O^T - Omega| = %.3g; singular value 1 has "
                             "multiplicity %d of %d" % (e_o, e_rec, e_s, unit, 2 * n))
-    if max(e_rec / sc, e_o, e_d / sc, e_s) > tol:
+    if e_rec > tol_z or e_o > tol or e_d > tol_z or e_s > tol:
         # open finding N3 is about symplecticity only: the factors stay orthogonal and their product stays S.  Anything else wrong with a
         # near-degenerate spectrum is NOT that finding
-        if neardeg and e_rec <= tol * sc and e_o <= tol and e_d <= tol * sc:
+        if neardeg and e_rec <= tol_z and e_o <= tol and e_d <= tol_z:
             return ctx.fail("bloch_messiah.near_degenerate_cluster_split_by_rounding",
                             "reconstruction %.3g orthogonality %.3g symplecticity %.3g diagonality %.3g; singular values %s contain a "
-                            "pair closer than 1e-5 that np.round(., 9) tells apart" % (e_rec, e_o, e_s, e_d, top.tolist()))
-        if e_rec > tol * sc:
+                            "pair closer than 1e-5 that np.round(., %d) tells apart" % (e_rec, e_o, e_s, e_d, top.tolist(), rounding))
+        if e_rec > tol_z:
             return ctx.fail("bloch_messiah.reconstruction", "|O1 Z O2 - S| = %.3g" % e_rec)
         if e_o > tol:
             return ctx.fail("bloch_messiah.not_orthogonal", "|O^T O - 1| = %.3g" % e_o)
-        if e_d > tol * sc:
+        if e_d > tol_z:
             return ctx.fail("bloch_messiah.Z_not_diagonal", "off-diagonal %.3g" % e_d)
-        return ctx.fail("bloch_messiah.not_symplectic", "|O Omega O^T - Omega| = %.3g (orthogonality %.3g)" % (e_s, e_o))
+        return ctx.fail("bloch_messiah.not_symplectic", "|O Omega O^T - Omega| = %.3g (orthogonality %.3g, rounding %d)" % (e_s, e_o, rounding))
     if np.any(z <= 0):
         return ctx.fail("bloch_messiah.Z_not_positive", "diag(Z) = %s" % z.tolist())
-    if _maxabs(z[:n] * z[n:] - 1) > tol * sc ** 2:
+    if _maxabs(z[:n] * z[n:] - 1) > tol * sc ** 2 + rq * sc:
         return ctx.fail("bloch_messiah.Z_not_s_inverse_s", "diag(Z) = %s is not (s_1..s_n, 1/s_1..1/s_n)" % z.tolist())
-    if _maxabs(np.sort(z)[::-1] - np.sort(sv)[::-1]) > tol * sc:
+    if _maxabs(np.sort(z)[::-1] - np.sort(sv)[::-1]) > tol_z:
         return ctx.fail("bloch_messiah.singular_values", "diag(Z) = %s, singular values of S %s" % (z.tolist(), sv.tolist()))
     if passive_exact and not (np.all(Z == np.eye(2 * n)) and np.all(O2 == np.eye(2 * n)) and np.all(O1 == S)):
         return ctx.fail("bloch_messiah.passive_convention", "passive S must be returned as (S, 1, 1) (docstring)")
@@ -604,9 +734,18 @@ def unitary_case(draw, nmin, nmax):
     n = draw(st.integers(nmin, nmax))
     kind, U = draw(unitary_plus(n))
     U = np.asarray(U, dtype=complex)
+    case = {"n": n, "kind": kind}
     if bool(np.all(U.imag == 0)) and draw(st.booleans()):
         U = U.real.copy()  # real dtype: orthogonal matrices, permutations, sign-flipped identities as float arrays
-    return {"n": n, "kind": kind, "U": spec.enc_matrix(U)}
+        if bool(np.all(U == np.rint(U))) and draw(st.booleans()):
+            case["dtype"] = "int"  # permutation matrices / sign-flipped identities as integer arrays
+    case["U"] = spec.enc_matrix(U)
+    return case
+
+
+def _dec_unitary(case):
+    U = spec.dec_param(case["U"])
+    return _as_int(U) if case.get("dtype") == "int" else U
 
 
 def _check_tlist(tl, n, mz):
@@ -652,7 +791,10 @@ MESH = ["rectangular", "rectangular_phase_end", "rectangular_MZ", "rectangular_s
 def _mesh_one(dec, name, U):
     """returns (error signature suffix, detail) or None"""
     n = U.shape[0]
-    out = getattr(dec, name)(U)
+    Uin = U.copy()
+    out = getattr(dec, name)(Uin)
+    if _touched(Uin, U):
+        return "modifies_input", "the argument was changed in place by up to %.3g" % _maxabs(Uin - U)
     if not (isinstance(out, tuple) and len(out) == 3):
         return "return_shape", "returned %r" % (type(out),)
     a, diags, b = out
@@ -691,11 +833,11 @@ def _mesh_one(dec, name, U):
 
 def check_mesh(ctx, case):
     dec = _dec()
-    U = spec.dec_param(case["U"])
+    U = _dec_unitary(case)
     ctx.note(case, nontrivial=_nontrivial(U), labels=MESH + _u_labels(case["kind"], U))
     for name in MESH:
         try:
-            res = _mesh_one(dec, name, U.copy())
+            res = _mesh_one(dec, name, U)
         except ValueError as exc:
             return ctx.fail("%s.rejects_valid" % name, "valid unitary (error %.2g) rejected: %s" % (_unit_err(U), exc))
         except Exception as exc:  # pylint: disable=broad-except
@@ -747,7 +889,10 @@ def _rec_rectangular_compact(ph):
 
 def _compact_one(dec, name, U):
     n = U.shape[0]
-    ph = getattr(dec, name)(U)
+    Uin = U.copy()
+    ph = getattr(dec, name)(Uin)
+    if _touched(Uin, U):
+        return "modifies_input", "the argument was changed in place by up to %.3g" % _maxabs(Uin - U)
     keys = ["phi_ins", "sigmas", "deltas"] + (["zetas"] if name == "triangular_compact" else ["phi_edges", "phi_outs"])
     if not isinstance(ph, dict) or ph.get("m") != n or any(k not in ph for k in keys):
         return "return_shape", "returned keys %r" % (sorted(ph) if isinstance(ph, dict) else type(ph),)
@@ -851,8 +996,9 @@ def _sun_rootcause(U, outcome, err=0.0):
 
 def _sun_one(dec, U):
     n = U.shape[0]
+    Uin = U.copy()
     try:
-        out = dec.sun_compact(U)
+        out = dec.sun_compact(Uin)
     except ValueError as exc:
         msg = str(exc)
         if np.isrealobj(U) and np.linalg.det(U) < 0 and "determinant 1" in msg:
@@ -863,6 +1009,8 @@ def _sun_one(dec, U):
         if rc:
             return rc[0], "valid unitary rejected with %r; %s" % (msg, rc[1])
         return "sun_compact.rejects_valid", "valid unitary (error %.2g) rejected: %s" % (_unit_err(U), msg)
+    if _touched(Uin, U):
+        return "sun_compact.modifies_input", "the argument was changed in place by up to %.3g" % _maxabs(Uin - U)
     if not (isinstance(out, tuple) and len(out) == 2):
         return "sun_compact.return_shape", "returned %r" % (type(out),)
     params, gp = out
@@ -891,13 +1039,13 @@ def _sun_one(dec, U):
 
 def check_compact(ctx, case):
     dec = _dec()
-    U = spec.dec_param(case["U"])
+    U = _dec_unitary(case)
     n = U.shape[0]
     names = ["triangular_compact", "rectangular_compact"] + (["sun_compact"] if n >= 3 else [])
     ctx.note(case, nontrivial=_nontrivial(U), labels=names + _u_labels(case["kind"], U))
     for name in names[:2]:
         try:
-            res = _compact_one(dec, name, U.copy())
+            res = _compact_one(dec, name, U)
         except ValueError as exc:
             return ctx.fail("%s.rejects_valid" % name, "valid unitary (error %.2g) rejected: %s" % (_unit_err(U), exc))
         except Exception as exc:  # pylint: disable=broad-except
@@ -906,7 +1054,7 @@ def check_compact(ctx, case):
             return ctx.fail("%s.%s" % (name, res[0]), res[1])
     if n >= 3:
         try:
-            res = _sun_one(dec, U.copy())
+            res = _sun_one(dec, U)
         except Exception as exc:  # pylint: disable=broad-except
             return ctx.crash(exc, "sun_compact")
         if res:
@@ -938,12 +1086,19 @@ def graph_case(draw, nmax):
         A = np.diag(draw(sv_list(n))).astype(complex)
     sym = routine == "graph_embed" or (kind != "takagi_form" and draw(st.booleans()))
     if sym:
-        A = (A + A.T) / 2
-    if routine == "bipartite_graph_embed" and sym and n >= 2 and draw(st.integers(0, 3)) == 0:
-        # nearly symmetric biadjacency matrix: any square matrix is a valid input of this routine
+        A = np.triu(A) + np.triu(A, 1).T if kind == "adjacency" else (A + A.T) / 2  # adjacency matrices stay 0/1
+    # the symmetry tolerances: defaults, or what the only callers pass (ops.GraphEmbed / BipartiteGraphEmbed: rtol=0, atol=1e-6)
+    tols = draw(st.sampled_from([None, None, None, [0.0, 1e-6], [0.0, 1e-6], [1e-5, 1e-6], [0.0, 1e-8]]))
+    generic = kind in ("complex", "real")
+    if routine == "bipartite_graph_embed" and sym and n >= 2 and draw(st.booleans()):
+        # nearly symmetric biadjacency matrix: any square matrix is a valid input of this routine.  With a symmetry tolerance of
+        # 1e-6 an asymmetry > 1e-8 takes the takagi branch: only on generic (well separated) spectra, a (nearly) degenerate
+        # subspace split by the asymmetry is takagi's known weak spot N1 at gaps beyond its 1e-6 window
+        big = tols is not None and tols[1] > 1e-7
+        asym = draw(st.sampled_from([1e-10, 1e-9, 1e-8, 1e-7, 1e-6] if (generic or not big) else [1e-10, 1e-9, 1e-8]))
         kind = "nearly_symmetric"
         A = A.astype(complex)
-        A[0, 1] += draw(st.sampled_from([1e-10, 1e-9, 1e-8, 1e-7, 1e-6]))
+        A[0, 1] += asym
     if _maxabs(A) < 0.1:
         A = A.astype(complex)
         A[0, 0] += 1.0
@@ -951,37 +1106,69 @@ def graph_case(draw, nmax):
     if routine == "graph_embed" and n >= 2 and draw(st.booleans()):
         mt = _maxabs(A - np.trace(A) / n * np.eye(n)) >= 0.1
     mp = draw(st.one_of(st.sampled_from([1.0, 0.5, 0.01, 5.0]), gen.fl(0.01, 5.0)))
-    return {"n": n, "routine": routine, "kind": kind, "A": spec.enc_matrix(A), "mean_photon_per_mode": mp, "make_traceless": bool(mt)}
+    case = {"n": n, "routine": routine, "kind": kind, "A": spec.enc_matrix(A), "mean_photon_per_mode": mp, "make_traceless": bool(mt),
+            "tols": tols}
+    if kind == "adjacency" and np.isrealobj(A) and draw(st.booleans()):
+        case["dtype"] = "int"  # 0/1 (half-integer after symmetrisation: then left as float) adjacency matrix as integer array
+        if not np.array_equal(A, np.rint(A)):
+            del case["dtype"]
+    return case
 
 
 def check_graph(ctx, case):
     dec = _dec()
     A = spec.dec_param(case["A"])
+    if case.get("dtype") == "int":
+        A = _as_int(A)
+    A0 = A.copy()
     n, routine, mp, mt = A.shape[0], case["routine"], case["mean_photon_per_mode"], case["make_traceless"]
+    tols = case.get("tols")
+    rtol, atol = tols or (1e-5, 1e-8)  # the routines' defaults
+    kw = {} if tols is None else {"rtol": rtol, "atol": atol}
     labels = [routine, "kind:" + case["kind"]] + (["make_traceless"] if mt else [])
+    if tols is not None:
+        labels.append("symmetry_tolerance_arg")
+        if rtol == 0 and atol == 1e-6:
+            labels.append("callers_tolerance")
+    if case.get("dtype") == "int":
+        labels.append("int_dtype")
     sv = np.linalg.svd(A, compute_uv=False)
     if len(set(np.round(sv, 9).tolist())) < n:
         labels.append("degenerate")
     ctx.note(case, nontrivial=_nontrivial(A), labels=labels)
     try:
         if routine == "graph_embed":
-            r, U = dec.graph_embed(A, mean_photon_per_mode=mp, make_traceless=mt)
+            r, U = dec.graph_embed(A, mean_photon_per_mode=mp, make_traceless=mt, **kw)
             V = U
         else:
-            r, U, V = dec.bipartite_graph_embed(A, mean_photon_per_mode=mp)
+            r, U, V = dec.bipartite_graph_embed(A, mean_photon_per_mode=mp, **kw)
     except ValueError as exc:
-        asym = _maxabs(A - A.T)
-        if routine == "bipartite_graph_embed" and "not symmetric" in str(exc) and 0 < asym < 1e-4 * _maxabs(A):
-            return ctx.fail("bipartite_graph_embed.nearly_symmetric_input_rejected_by_takagi",
-                            "any square matrix is valid here, but |A - A^T| = %.3g passes the routine's elementwise allclose(rtol 1e-5) test, so "
-                            "takagi is called, whose Frobenius-norm test with tol = atol raises: %s" % (asym, exc))
+        asym = _maxabs(A0 - A0.T)
+        if routine == "bipartite_graph_embed" and "not symmetric" in str(exc) and 0 < asym < 1e-4 * _maxabs(A0):
+            # open finding N10 is the mismatch of the routine's two symmetry tests: the scaled matrix passes the elementwise
+            # allclose(rtol, atol) but its asymmetry has a Frobenius norm >= atol, which takagi(tol=atol) refuses.  A refusal below
+            # that norm is NOT that finding (scale: thewalrus' deterministic root finder, 10% margin)
+            from thewalrus.quantum import adj_scaling
+
+            sA = adj_scaling(np.block([[0 * A0, A0], [A0.T, 0 * A0]]), 2 * n * mp) * A0
+            fro = float(np.linalg.norm(sA - sA.T))
+            if np.allclose(sA, sA.T, rtol=rtol, atol=atol) and fro >= 0.9 * atol:
+                return ctx.fail("bipartite_graph_embed.nearly_symmetric_input_rejected_by_takagi",
+                                "any square matrix is valid here, but |A - A^T| = %.3g passes the routine's elementwise allclose(rtol %g, atol "
+                                "%g) test, so takagi is called, whose Frobenius-norm test (%.3g >= tol = atol) raises: %s"
+                                % (asym, rtol, atol, fro, exc))
+            return ctx.fail("bipartite_graph_embed.rejects_valid",
+                            "any square matrix is valid here; the scaled asymmetry %.3g (Frobenius) is below atol = %g, yet: %s" % (fro, atol, exc))
         return ctx.fail("%s.rejects_valid" % routine, "valid matrix rejected: %s" % exc)
     except Exception as exc:  # pylint: disable=broad-except
         return ctx.crash(exc, routine)
+    if _touched(A, A0):
+        return ctx.fail("%s.modifies_input" % routine, "the argument was changed in place by up to %.3g (relative %.3g)"
+                        % (_maxabs(A - A0), _maxabs(A - A0) / _maxabs(A0)))
+    A = A0
     At = A - np.trace(A) / n * np.eye(n) if mt else A
     col = _Collect()
-    # a nearly symmetric matrix that takagi accepts is embedded as its symmetric part: looser bound by the asymmetry
-    _graph_verdict(col, routine, At, r, U, V, mp, TOL + (10 * _maxabs(A - A.T) if case["kind"] == "nearly_symmetric" else 0.0))
+    _graph_verdict(col, routine, At, r, U, V, mp, TOL, sym_tols=(rtol, atol) if routine == "bipartite_graph_embed" else None)
     if col.failed:
         # both routines hand the scaled matrix to takagi: a failure there is takagi's (same scale as the routine: thewalrus'
         # deterministic root finder, third-party code)
@@ -991,14 +1178,18 @@ def check_graph(ctx, case):
             rc = _takagi_rootcause(adj_scaling(At, n * mp) * At)
         else:
             sc = adj_scaling(np.block([[0 * A, A], [A.T, 0 * A]]), 2 * n * mp)
-            rc = _takagi_rootcause(sc * A) if np.allclose(sc * A, (sc * A).T, rtol=1e-05, atol=1e-08) else None
+            rc = _takagi_rootcause(sc * A) if np.allclose(sc * A, (sc * A).T, rtol=rtol, atol=atol) else None
         if rc:
             return ctx.fail(rc[0], "%s fails through takagi (%s): %s" % (routine, col.failed[1], rc[1]))
         return ctx.fail(*col.failed)
     return None
 
 
-def _graph_verdict(ctx, routine, At, r, U, V, mp, tol):
+def _graph_verdict(ctx, routine, At, r, U, V, mp, tol, sym_tols=None):
+    """sym_tols = (rtol, atol) of bipartite_graph_embed: a biadjacency matrix whose scaled version c A is symmetric within that
+    tolerance (elementwise, as documented) is embedded as a symmetric matrix within c * |A - A^T| of c A: the bound is loosened by
+    100 x that asymmetry (as in the `invalid` sub-check), and the singular values s_i = tanh r_i, hence sum sinh^2 r_i, may move
+    accordingly"""
     n = At.shape[0]
     r, U, V = np.asarray(r), np.asarray(U), np.asarray(V)
     if r.shape != (n,) or U.shape != (n, n) or V.shape != (n, n) or np.iscomplexobj(r) or not np.all(np.isfinite(r)) \
@@ -1010,11 +1201,17 @@ def _graph_verdict(ctx, routine, At, r, U, V, mp, tol):
     c = float(np.vdot(At, R).real / np.vdot(At, At).real)
     if not c > 0:
         return ctx.fail("%s.scaling_not_positive" % routine, "least-squares scaling c = %r" % c)
+    asym = 0.0
+    if sym_tols is not None and _maxabs(At - At.T) > 0 and \
+            bool(np.all(c * np.abs(At - At.T) <= 1.05 * (sym_tols[1] + sym_tols[0] * c * np.abs(At.T)))):
+        asym = c * _maxabs(At - At.T)
+        tol = tol + 100 * asym
     e = _maxabs(R - c * At)
     if e > tol * (1 + c * _maxabs(At)):
         return ctx.fail("%s.reconstruction" % routine, "|U diag(tanh(-r)) V^T - c A| = %.3g (c = %.6g)" % (e, c))
     nbar = float(np.sum(np.sinh(r) ** 2))
-    if abs(nbar - n * mp) > 1e-6 * n * mp:
+    slack = 10 * asym * float(np.sum(2 * np.sinh(np.abs(r)) * np.cosh(r) ** 3))  # d sinh^2(artanh s) / ds = 2 sinh r cosh^3 r
+    if abs(nbar - n * mp) > 1e-6 * n * mp + slack:
         return ctx.fail("%s.mean_photon" % routine, "sum sinh^2 r = %.12g, requested n * mean_photon_per_mode = %.12g" % (nbar, n * mp))
     return None
 
@@ -1024,6 +1221,15 @@ def _graph_verdict(ctx, routine, At, r, U, V, mp, tol):
 # ---------------------------------------------------------------------------------------------
 UNITARY_ROUTINES = MESH + ["triangular_compact", "rectangular_compact", "sun_compact"]
 FACTORS = [0.01, 0.1, 0.9, 1.1, 10.0, 1e4]
+# routines that get a valid matrix with one entry replaced by nan / inf (mode "nonfinite").
+# AUDIT-FINDING nonfinite-accepted: bloch_messiah and takagi are left out, their acceptance tests `norm(..) >= tol` are False for nan:
+# bloch_messiah(S with a nan) returns (S, 1, 1), takagi (real path, inf entry) returns all-nan factors (out/audit/C17-nonfinite-accepted*.json).
+# williamson and bipartite_graph_embed pass nan through their own tests as well and are only stopped by exceptions from inside
+# scipy.linalg.sqrtm / LAPACK (build dependent): left out too.  graph_embed: nan only (a symmetric pair of inf passes np.allclose(A, A.T)
+# and is refused by thewalrus' root finder, third-party code).
+NONFINITE_ROUTINES = UNITARY_ROUTINES + ["graph_embed"]
+NONFINITE = {"nan": float("nan"), "inf": float("inf"), "-inf": float("-inf"), "nan_imag": complex(0.0, float("nan")),
+             "inf_imag": complex(0.0, float("inf"))}
 
 
 @st.composite
@@ -1035,6 +1241,21 @@ def invalid_case(draw, nmax):
     factor = draw(st.sampled_from(FACTORS))
     tol = None
     case = {"routine": routine}
+    if routine in NONFINITE_ROUTINES and draw(st.integers(0, 5)) == 0:
+        if routine == "graph_embed":
+            W = draw(gen.unitary(n, ["haar", "orth", "identity"]))[1]
+            M = W @ np.diag(np.linspace(1.0, 0.3, n)) @ W.T
+            M = (M + M.T) / 2
+            if bool(np.all(M.imag == 0)) and draw(st.booleans()):
+                M = M.real.copy()
+            case["mean_photon_per_mode"] = 1.0
+            value = "nan" if np.isrealobj(M) else draw(st.sampled_from(["nan", "nan_imag"]))
+        else:
+            M = draw(gen.unitary(n, ["haar", "haar", "orth", "perm", "identity", "diag"]))[1]
+            value = draw(st.sampled_from(["nan", "nan", "inf", "-inf", "nan_imag", "inf_imag"]))
+        case.update({"mode": "nonfinite", "factor": factor, "tol": draw(st.sampled_from([None, None, 1e-6])), "M": spec.enc_matrix(M),
+                     "poison": {"at": [draw(st.integers(0, n - 1)), draw(st.integers(0, n - 1))], "value": value}})
+        return case
     if routine in UNITARY_ROUTINES:
         mode = draw(st.sampled_from(["nonunitary", "nonunitary", "nonunitary", "nonsquare", "gross"] + (["too_small"] if routine == "sun_compact" else [])))
         tol = draw(st.sampled_from([None, None, 1e-9, 1e-6]))
@@ -1090,7 +1311,7 @@ def invalid_case(draw, nmax):
         M = A[:, :-1] if draw(st.booleans()) else A[:-1, :]
         case["mean_photon_per_mode"] = 1.0
     elif routine == "williamson":
-        mode = draw(st.sampled_from(["asym", "asym", "asym", "nonsquare", "odd", "notposdef", "gross"]))
+        mode = draw(st.sampled_from(["asym", "asym", "asym", "nonsquare", "odd", "notposdef", "notposdef", "notposdef", "gross"]))
         tol = draw(st.sampled_from([None, None, 1e-9, 1e-6]))
         V = draw(gen.covariance(n, 2.0, ["mixed_generic", "pure_generic"]))[1]
         V = (V + V.T) / 2
@@ -1105,10 +1326,15 @@ def invalid_case(draw, nmax):
         elif mode == "notposdef":  # flip the sign of one or more eigenvalues (even counts keep det > 0): symmetric, indefinite
             w, Q = np.linalg.eigh(V)
             k_neg = draw(st.sampled_from([1, 2, 2, 3, 2 * n]))
+            # slightly indefinite (boundary of positive definiteness): eigenvalues -1e-6 .. -1e-9 x (0.2 .. 5), far above the 1e-15
+            # resolution of eigvalsh, so the sign is not a matter of rounding
+            fs = [1.0, 0.1, 1e-3] if draw(st.booleans()) else [1e-6, 1e-8, 1e-9]
             for i_ in list(draw(st.permutations(list(range(2 * n)))))[:min(k_neg, 2 * n)]:
-                w[i_] *= -draw(st.sampled_from([1.0, 0.1, 1e-3]))
+                w[i_] *= -draw(st.sampled_from(fs))
             M = (Q * w) @ Q.T
             M = (M + M.T) / 2
+            if fs[0] < 1e-3:
+                mode = "notposdef_slightly"
         else:
             M = draw(gen.ginibre(2 * n, complex_=False))
             M[0, 1] = M[1, 0] + 0.5
@@ -1255,7 +1481,15 @@ def check_invalid(ctx, case):
     M = spec.dec_param(case["M"])
     if routine in UNITARY_ROUTINES:
         M = M.astype(complex)
-    v = _violation(routine, M, tol, case)
+    if case.get("poison"):  # one entry (graph_embed: a symmetric pair) of a valid matrix becomes nan / inf
+        val = NONFINITE[case["poison"]["value"]]
+        i_, j_ = case["poison"]["at"]
+        if isinstance(val, complex):
+            M = M.astype(complex)
+        M[i_, j_] = val
+        if case["poison"].get("sym", routine == "graph_embed"):
+            M[j_, i_] = val
+    v = _violation(routine, M, tol, case) if mode != "nonfinite" else None
     if mode in ("nonunitary", "asym", "nonsymplectic") and v is not None:
         rho_lo, rho, size = v
     else:
@@ -1270,8 +1504,9 @@ def check_invalid(ctx, case):
     if np.isfinite(rho) and rho < 100:
         labels.append("near_tolerance")
     ctx.note(case, nontrivial=True, labels=sorted(set(labels)))
+    Min = M.copy()
     try:
-        out = _call(dec, routine, M.copy(), tol, case)
+        out = _call(dec, routine, Min, tol, case)
     except Exception as exc:  # pylint: disable=broad-except
         ctx.label("rejected_with:" + type(exc).__name__)
         if expect == "accept":
@@ -1292,6 +1527,8 @@ def check_invalid(ctx, case):
                             "and the loops are empty): returned %r" % (M.shape[0], M.shape[1], out[1] if isinstance(out, tuple) else out))
         return ctx.fail("%s.accepts_invalid.%s" % (routine, mode.split("_")[0]),
                         "input of shape %s violating the acceptance test by %.3g = %.3g x tolerance was decomposed without error" % (M.shape, size, rho))
+    if _touched(Min, M):
+        return ctx.fail("%s.modifies_input" % routine, "the argument was changed in place by up to %.3g" % _maxabs(Min - M))
     if routine in ("graph_embed", "bipartite_graph_embed"):
         return None
     loose = 1e-8 + 100 * size
@@ -1308,19 +1545,19 @@ def check_invalid(ctx, case):
 # ---------------------------------------------------------------------------------------------
 SUBS = [
     Sub("takagi", check=check_takagi, strategy=lambda ctx: takagi_case(_nmax(ctx)), examples={"quick": 1500, "thorough": 6000},
-        shards={"quick": 2, "thorough": 16}, rule="A = W diag(sv) W^T (complex / real / zero / diagonal / graphs / Gaussian integers / gaps 1e-14..1e-6)"),
+        shards={"quick": 2, "thorough": 16}, rule="A = W diag(sv) W^T (complex / real / zero / diagonal / graphs / Gaussian integers / gaps 1e-14..1e-6), rounding 13..6, int dtype, entries x 1e-3 / 1e-5"),
     Sub("williamson", check=check_williamson, strategy=lambda ctx: williamson_case(_nmax(ctx)), examples={"quick": 900, "thorough": 4000},
         shards={"quick": 2, "thorough": 16}, rule="V = S D S^T: pure, thermal, mixed with zero occupations, sub-unit spectra, any hbar"),
     Sub("bloch_messiah", check=check_bm, strategy=lambda ctx: bm_case(_nmax(ctx)), examples={"quick": 900, "thorough": 4000},
-        shards={"quick": 2, "thorough": 16}, rule="S = O1 Z O2 with drawn multiplicities of r (zeros, repeats), passive, diagonal, O1 Z, Z O2"),
+        shards={"quick": 2, "thorough": 16}, rule="S = O1 Z O2 with drawn multiplicities of r (zeros, repeats), passive, diagonal, O1 Z, Z O2, integer CX/CZ/P shears, rounding 9..6"),
     Sub("mesh", check=check_mesh, strategy=lambda ctx: unitary_case(1, _nmax(ctx)), examples={"quick": 1200, "thorough": 5000},
         shards={"quick": 2, "thorough": 16}, rule="structured unitaries through rectangular / phase_end / MZ / symmetric / triangular"),
     Sub("compact", check=check_compact, strategy=lambda ctx: unitary_case(1, _nmax(ctx)), examples={"quick": 1200, "thorough": 5000},
         shards={"quick": 2, "thorough": 16}, rule="structured unitaries through triangular_compact / rectangular_compact / sun_compact"),
     Sub("graph_embed", check=check_graph, strategy=lambda ctx: graph_case(_nmax(ctx)), examples={"quick": 500, "thorough": 3000},
-        shards={"quick": 2, "thorough": 16}, rule="symmetric / bipartite adjacency matrices, mean photon 0.01..5, make_traceless"),
+        shards={"quick": 2, "thorough": 16}, rule="symmetric / bipartite adjacency matrices, mean photon 0.01..5, make_traceless, rtol / atol (defaults, ops.py's 0 / 1e-6), int dtype"),
     Sub("invalid", check=check_invalid, strategy=lambda ctx: invalid_case(_nmax(ctx)), examples={"quick": 1500, "thorough": 6000},
-        shards={"quick": 2, "thorough": 16}, rule="valid + perturbation of 0.01x..1e4x the routine's tolerance, non-square, odd, indefinite, too small"),
+        shards={"quick": 2, "thorough": 16}, rule="valid + perturbation of 0.01x..1e4x the routine's tolerance, non-square, odd, (slightly) indefinite, too small, nan / inf entry"),
 ]
 
 MANIFEST = {
